@@ -400,10 +400,14 @@ class AsyncClient(base_client.BaseClient):
             return
         reconnecting = not self.connected and \
             self in base_client.reconnecting_clients
+        # (if the transport ends while the handler runs, the end of this
+        # namespace is not reported a second time)
+        self._ending_namespaces.add(namespace)
         try:
             await self._trigger_event('disconnect', namespace,
                                       self.reason.SERVER_DISCONNECT)
         finally:
+            self._ending_namespaces.discard(namespace)
             # a failing disconnect handler must not keep the namespace
             # listed as connected
             if reconnecting:
@@ -594,7 +598,10 @@ class AsyncClient(base_client.BaseClient):
                 # (a reply that is dispatched after the disconnection of its
                 # transport has been processed does not connect anything)
             elif pkt.packet_type == packet.DISCONNECT:
-                await self._handle_disconnect(pkt.namespace)
+                if not self._transport_ended:
+                    await self._handle_disconnect(pkt.namespace)
+                # (when it is dispatched after the disconnection of its
+                # transport, the end has been reported already)
             elif pkt.packet_type == packet.EVENT:
                 await self._handle_event(pkt.namespace, pkt.id, pkt.data)
             elif pkt.packet_type == packet.ACK:
@@ -614,7 +621,11 @@ class AsyncClient(base_client.BaseClient):
         will_reconnect = self.reconnection and self.eio.state == 'connected'
         error = None
         if self.connected:
-            for n in self.namespaces:
+            for n in list(self.namespaces):
+                if n in self._ending_namespaces or n not in self.namespaces:
+                    # a DISCONNECT packet for it is being, or has meanwhile
+                    # been, processed
+                    continue
                 try:
                     await self._trigger_event('disconnect', n, reason)
                 except Exception as exc:
